@@ -155,7 +155,7 @@ def diff(obs, model, what):
     probs = []
     if obs['items'] != model['items'] or obs['end'] != model['end']:
         probs.append(f"{what}: sequence {json.dumps(obs['items'])[:300]} end={obs['end']} != uncached {json.dumps(model['items'])[:300]} end={model['end']}"
-                     + (('\n' + obs['tb']) if obs.get('tb') and obs['end'] != model['end'] else ''))
+                     + ((' | ' + L._last(obs['tb'])) if obs.get('tb') and obs['end'] != model['end'] else ''))
     elif obs['logs'] != model['logs']:
         probs.append(f"{what}: log sequence differs: {obs['logs'][:5]} vs uncached {model['logs'][:5]}")
     return probs
@@ -190,7 +190,7 @@ def gen_history(rng, nfull):
     return ops
 
 
-def apply_op(spec, op, cachedir, res):
+def apply_op(spec, op, cachedir, res, timeout=30):
     """apply one history operation; partial runs are themselves compared with the model.  -> list of problems"""
     probs = []
     kind = op[0]
@@ -205,7 +205,7 @@ def apply_op(spec, op, cachedir, res):
         def child():
             L.install_killer(0, how=how, match='%04d' % m, frac=frac)
             return run(spec, m + 2, cachedir)
-        status, out = L.fork_call(child, timeout=30)
+        status, out = L.fork_call(child, timeout=timeout)
         if status in ('exit:137', 'signal:9'):
             res.count('rec_real_kills')
         elif status == 'exit:0' and out is not None:
